@@ -282,7 +282,7 @@ class Prop:
 def corpus_cases():
     res = []
     for p in sorted(glob.glob(os.path.join(VERIF, "corpus", "C15", "*.json"))):
-        res.append(("corpus:" + os.path.basename(p), json.load(open(p))["lines"]))
+        res.append(("corpus:" + os.path.basename(p), json.load(open(p))))
     return res
 
 
@@ -337,6 +337,28 @@ class ScriptRunner:
         self.ub_silent = 0
         self.ub_limit = 60 if ctx.tier == "quick" else 400
         self.ub_run = 0
+        self.stmt_hist = {}       # statement kinds (top level) and `h:`-prefixed kinds inside handlers
+        self.out_hist = {}        # kinds of printed tokens in the model's answers (errors, array kinds, ...)
+
+    def account(self, stmts, model_lines):
+        for t in stmts:
+            self.stmt_hist[t[0]] = self.stmt_hist.get(t[0], 0) + 1
+            if t[0] == "fan":
+                src = "fan-src:" + ("name" if t[1][0] == "$" else "value")
+                self.stmt_hist[src] = self.stmt_hist.get(src, 0) + 1
+                first = True
+                for tok in t[2:]:
+                    if first:
+                        self.stmt_hist["h:" + tok] = self.stmt_hist.get("h:" + tok, 0) + 1
+                    first = tok == ";"
+        for m in model_lines:
+            if m.startswith("ok out=["):
+                for tok in m[8:m.index("]")].split("|"):
+                    if tok:
+                        k = tok.split(" ")[0] + (":" + tok.split(" ")[1] if tok.startswith("q ") else "")
+                        self.out_hist[k] = self.out_hist.get(k, 0) + 1
+            elif m == "ub":
+                self.out_hist["ub"] = self.out_hist.get("ub", 0) + 1
 
     def run(self, named):
         """named: list of (name, stmts).  returns number of failing cases"""
@@ -349,6 +371,7 @@ class ScriptRunner:
         for name, st, ls in rendered:
             m = model[pos:pos + len(ls)]
             pos += len(ls)
+            self.account(st, m)
             if "ub" in m:
                 i = m.index("ub")
                 self.ub_cases += 1
@@ -508,6 +531,8 @@ def check(ctx):
     ctx.stats["ub_cases_run_on_impl"] = runner.ub_run
     ctx.stats["ub_cases_sanitizer_report"] = len(runner.ub_crashed)
     ctx.stats["ub_cases_silent"] = runner.ub_silent
+    ctx.stats["script_statement_histogram"] = runner.stmt_hist
+    ctx.stats["script_output_token_histogram"] = runner.out_hist
     ctx.oblige("correspondence harness/target.cpp == Target model (variant %s) on %d histories" % (
         "snapshot=%d,fieldfan=%d" % (cfg["snapshot"], cfg["fieldfan"]), d.cases), bad == 0,
         "%d differing cases" % bad, reported=True)
